@@ -704,6 +704,12 @@ class AcctSim(object):
             else:
                 self.fault("rebalance_failed")
                 expected_failure = must_fail or either
+                if not fractional and any(abs(pl.get("imb", 0)) >= 2 ** 53 for pl in plan.values()):
+                    # out of domain: beyond 2**53 lots a float cannot represent a whole number of lots, so
+                    # "whole lots" has no meaning (positions of 1e16+ contracts arise only in very long
+                    # leveraged scripts of the thorough tier)
+                    expected_failure = True
+                    self.probe("whole_lot_imbalance_beyond_2_53")
                 if not expected_failure and ("c13" in self.oracles or "c12" in self.oracles or "c03" in self.oracles or "c01" in self.oracles):
                     self.violate("unexpected_exception", "rebalance to {} raised {!r} although no quote it needs is missing".format(targets, err),
                                  exc=type(err).__name__, where="rebalance", fractional=fractional)
